@@ -11,6 +11,6 @@ PROPS = {
     'C13': dict(
         micro=['mtud'],
         modelled="mtud.rs complete: MtuDiscovery::{new,disabled,reset,poll_transmit,on_acked,on_probe_lost,on_non_probe_lost,black_hole_detected,on_peer_max_udp_payload_size_received,in_flight_mtu_probe,current_mtu}, EnabledMtuDiscovery, Phase, SearchState::{new,next_mtu_to_probe}, BlackHoleDetector (burst aggregation, suspicious-burst table with first-minimum replacement), MtuDiscoveryConfig setters (upper_bound clamp) and defaults; all panics (debug_assert in new / on_peer_max..., checked u16/u64 subtraction) as explicit outcomes",
-        not_modelled="datagram sizing in Connection::poll_transmit / PacketBuilder (segment_size, padding, GSO; DESIGN 5.13 second half: system simulator), overflow of lost_probe_count (2^64 calls) and of Instant + Duration",
+        not_modelled="no Lean model of the datagram sizing in Connection::poll_transmit / PacketBuilder (segment_size, padding, GSO): it is observed by the simulator oracles only; which datagram is a loss probe is not visible from outside (the <= 1200 clamp of loss probes is not checked); overflow of lost_probe_count (2^64 calls) and of Instant + Duration",
     ),
 }
